@@ -18,7 +18,7 @@ from tracelib import *
 PROP = "C02"
 LEVEL = "exploration"
 FLAVOUR = "plain"
-TIERS = {"quick": (12000, 170), "thorough": (500000, 3300)}
+TIERS = {"quick": (40000, 170), "thorough": (2500000, 3300)}
 RULE_TEXT = ("one run = one generated chart that validate() accepts (<= 10 states, biased to history/parallel/targetless/multi-target) x one event history, "
              "engine large or fast, deterministic-history mode or stepper+controller under the seeded scheduler; the legality predicate runs after every step(); "
              "non-trivial = at least 4 configurations checked and the chart has a parallel or history state; distinct = distinct (chart, ops, engine) content hashes")
@@ -34,7 +34,7 @@ class Context(object):
 
 
 def gen_plan(seed, k):
-    return workload.chart_and_history(seed, k, features={"par_p": 0.5})
+    return workload.chart_and_history(seed, k, features={"par_p": 0.6})
 
 
 def oracle(plan, res):
